@@ -24,12 +24,25 @@ MAP = {
  'lock-isacquired-no-expiry': ['C16'], 'lock-acquire-steals': ['C16'], 'lock-release-anyone': ['C16'], 'lock-late-check-removed': ['C16'], 'lock-prolong-all': ['C16'],
  'journal-headdrop-inplace': ['C08', 'C06'], 'dump-load-clears-untrimmed-journal': ['C06'], 'meta-commit-ahead': ['C06'], 'restart-applied-from-commit': ['C06'],
  'snapshot-consumers-swapped': ['C09'], 'snapshot-applied-index-plus-one': ['C09'], 'snapshot-rename-before-write': ['C09'], 'snapshot-transfer-skips-first-chunk-check': ['C09'],
- 'snapshot-version-not-saved': ['C09', 'C17'], 'compaction-trims-one-too-many': ['C09', 'C01'], 'transport-unknown-peer-accepted': ['C14'], 'transport-no-reconnect': ['C14'],
+ 'snapshot-version-not-saved': ['C09', 'C17'], 'compaction-trims-one-too-many': ['C06', 'C09', 'C01'], 'transport-unknown-peer-accepted': ['C14'], 'transport-no-reconnect': ['C14'],
  'transport-dropnode-keeps-address': ['C14'], 'transport-wrong-sender': ['C14'], 'tcp-no-read-timeout': ['C14'], 'transport-send-true-when-connecting': ['C14'],
  'sync-shared-result': ['C19'], 'queue-drops-when-busy': ['C19'], 'callback-on-queue-full-and-enqueue': ['C19', 'C02'], 'forwarded-reply-wrong-request': ['C19', 'C02'],
  'backoff-no-truncate': ['C05'],
  'reqid-not-unique': ['C06'], 'snapshot-speculative-members': ['C10'], 'truncate-always': ['C04', 'C18'], 'snapshot-install-clears-log': ['C04', 'C01'], 'snapshot-failed-load-acked': ['C04', 'C09'],
 }
+
+# mutants judged NOT to break any listed property (kept in the table for honesty: "not detected" is the right answer)
+BENIGN = {
+ 'readonly-votes': 'voters never send request_vote to observers, the branch is unreachable',
+ 'readonly-nextindex-missing': 'the observer keeps the nextIndex it got when it connected (lower, therefore safe); only re-sends',
+ 'match-overwrite': 'matchIndex can only become smaller than the truth: commits are delayed, never unsafe',
+ 'queue-not-drained-follower': 'one forwarded command per tick instead of all: slower, same outcome',
+ 'stale-leader-pointer': 'a candidate keeps naming the old leader until the election ends; no listed property speaks about it',
+ 'tcp-length-unsigned-recv': 'a negative length is read as a huge one: the receiver waits instead of disconnecting, which C13 allows (nothing further is delivered)',
+ 'snapshot-offset-not-restarted': 'the receiver drops chunks that do not continue its buffer and the sender starts over after the last chunk: slower, same outcome',
+ 'snapshot-transfer-skips-first-chunk-check': 'with FIFO connections a non-first chunk never meets an empty buffer (the sender restarts at the first chunk after every disconnect)',
+}
+
 
 def run(m):
     checks = MAP.get(m, [])
@@ -60,7 +73,10 @@ def main():
         for c, ex_, t, sig in out:
             tot += 1
             det += ex_ == 'exit=1'
-            lines.append('| %s | %s | %s | %s (%s) | %s |' % (m, MUTANTS[m]['why'], c, 'DETECTED' if ex_ == 'exit=1' else ('not detected' if ex_ == 'exit=0' else ex_), t, sig))
+            res = 'DETECTED' if ex_ == 'exit=1' else ('not detected' if ex_ == 'exit=0' else ex_)
+            if ex_ == 'exit=0' and m in BENIGN:
+                res = 'not detected - judged benign: ' + BENIGN[m]
+            lines.append('| %s | %s | %s | %s (%s) | %s |' % (m, MUTANTS[m]['why'], c, res, t, sig))
     lines += ['', '%d of %d (mutant, check) pairs detected in the quick tier; wall %.0f s.' % (det, tot, time.time() - t0), '']
     open(os.path.join(HERE, 'sensitivity_mutants.md'), 'w').write('\n'.join(lines))
     print('\n'.join(lines[-3:]))
